@@ -824,83 +824,128 @@ def dist_err(Dexp, Dgot):
     return e / mx
 
 
+def meta_cmds(c):
+    X, Xp = c["X"], meta_image(c)
+    nrng = random.Random(c["noise_seed"])
+    eps = noise_level(c)
+    if c["tr"]["kind"] in ("trans", "combo"):
+        # the translated data carry ABSOLUTE rounding noise ~ ulp(|t|): mimic it on the original
+        Xn = [[v + eps * (2 * nrng.random() - 1) for v in row] for row in X]
+    else:
+        Xn = [[v * (1 + eps * (2 * nrng.random() - 1)) for v in row] for row in X]
+    return [emb_cmd(c["params"], c["N"], c["D"], X), emb_cmd(c["params"], c["N"], c["D"], Xp),
+            emb_cmd(c["params"], c["N"], c["D"], Xn)]
+
+
+def meta_verdict(c, res3, stats):
+    """-> None (holds / not comparable) or the text of a violation"""
+    a, b, p = (parse_emb(r) for r in res3)
+    for tag, r in (("original", a), ("transformed", b)):
+        if r[0] == "crash":
+            return "embed aborts / hangs on the %s input: %s" % (tag, str(r[1])[:400])
+        if r[0] == "bad":
+            return "embed returned garbage on the %s input: %s" % (tag, r[1])
+    kind = c["tr"]["kind"]
+    if a[0] == "exc" and b[0] == "exc":
+        stats["both_throw"] = stats.get("both_throw", 0) + 1
+        if a[1] != b[1]:
+            return "the call throws %s on the original and %s on the %s input" % (a[1], b[1], kind)
+        return None
+    if a[0] != b[0]:
+        return "the call %s on the original input but %s on its %s image" % (
+            "throws " + a[1] if a[0] == "exc" else "succeeds", "throws " + b[1] if b[0] == "exc" else "succeeds", kind)
+    Y, Yp = a[1], b[1]
+    N = c["N"]
+    if len(Y) != N or len(Yp) != N or len(Y[0]) != len(Yp[0]):
+        return "shape of the embedding depends on the transformation"
+    Dm, Dp = dist_matrix(Y), dist_matrix(Yp)
+    if kind in ("perm", "combo"):
+        ql = c["tr"]["ql"]
+        Dexp = [[Dm[ql[i]][ql[j]] for j in range(N)] for i in range(N)]
+    elif kind == "scale":
+        Dexp = [[abs(c["tr"]["c"]) * v for v in row] for row in Dm]
+    else:
+        Dexp = Dm
+    err = dist_err(Dexp, Dp)
+    if err is None:
+        stats["degenerate"] = stats.get("degenerate", 0) + 1
+        return None
+    tol = meta_tol(c)
+    stats["max_err"] = max(stats.get("max_err", 0.0), err if err < tol else 0.0)
+    if err <= tol:
+        stats["meta_ok"] = stats.get("meta_ok", 0) + 1
+        return None
+    # conditioning probe: is the embedding itself stable under noise of the size the transformation injects?
+    cond = None
+    if p[0] == "ok" and len(p[1]) == N:
+        cond = dist_err(Dm, dist_matrix(p[1]))
+    if cond is None or cond > tol / 20:
+        stats["ill_conditioned_skipped"] = stats.get("ill_conditioned_skipped", 0) + 1
+        return None
+    return ("%s embedding is not %s under a %s of the input: embedding distance matrices differ by %.3g "
+            "(relative to the largest distance; tolerance %.0e; the same input with relative noise %.0e "
+            "moves them by only %.3g)" % (
+                c["method"], "equivariant" if kind in ("perm", "scale", "combo") else "invariant",
+                {"perm": "permutation", "rot": "rotation/reflection", "trans": "translation",
+                 "scale": "scaling", "combo": "rigid motion followed by a permutation"}[kind],
+                err, tol, noise_level(c), cond))
+
+
+def drop_sample(c, i):
+    """the same case without sample i (None when it would become too small)"""
+    N = c["N"]
+    need = max(6, c["params"].get("k", 0) + 2, c["params"]["d"] + 2)
+    if N - 1 < need:
+        return None
+    d = json.loads(json.dumps(c))
+    d["N"] = N - 1
+    d["X"] = [r for t, r in enumerate(c["X"]) if t != i]
+    if "ql" in d["tr"]:
+        d["tr"]["ql"] = [v - 1 if v > i else v for v in c["tr"]["ql"] if v != i]
+    return d
+
+
+def shrink_meta(ctx, exe, c, budget=40):
+    env = {"OMP_NUM_THREADS": "1"}
+    i = c["N"] - 1
+    scratch = {}
+    while i >= 0 and budget > 0:
+        d = drop_sample(c, i)
+        if d is None:
+            break
+        budget -= 1
+        if meta_verdict(d, run_impl(ctx, exe, meta_cmds(d), timeout=120, env=env), scratch) is not None:
+            c = d
+        i -= 1
+        i = min(i, c["N"] - 1)
+    return c
+
+
 def eval_meta(ctx, exe, cases, stats, hist):
     if not cases:
         return 0
     cmds = []
     for c in cases:
-        X, Xp = c["X"], meta_image(c)
-        nrng = random.Random(c["noise_seed"])
-        eps = noise_level(c)
-        if c["tr"]["kind"] in ("trans", "combo"):
-            # the translated data carry ABSOLUTE rounding noise ~ ulp(|t|): mimic it on the original
-            Xn = [[v + eps * (2 * nrng.random() - 1) for v in row] for row in X]
-        else:
-            Xn = [[v * (1 + eps * (2 * nrng.random() - 1)) for v in row] for row in X]
-        cmds += [emb_cmd(c["params"], c["N"], c["D"], X), emb_cmd(c["params"], c["N"], c["D"], Xp),
-                 emb_cmd(c["params"], c["N"], c["D"], Xn)]
+        cmds += meta_cmds(c)
     res = run_impl(ctx, exe, cmds, timeout=600, env={"OMP_NUM_THREADS": "1"})
     evals = 0
+    shrunk = 0
     for ci, c in enumerate(cases):
-        a, b, p = (parse_emb(r) for r in res[3 * ci:3 * ci + 3])
         key = "%s/%s" % (c["method"], c["tr"]["kind"])
         hist[key] = hist.get(key, 0) + 1
         evals += 1
-        for tag, r in (("original", a), ("transformed", b)):
-            if r[0] == "crash":
-                ctx.violation(c, "embed aborts / hangs on the %s input: %s" % (tag, str(r[1])[:400]))
-            elif r[0] == "bad":
-                ctx.violation(c, "embed returned garbage on the %s input: %s" % (tag, r[1]))
-        if a[0] in ("crash", "bad") or b[0] in ("crash", "bad"):
+        why = meta_verdict(c, res[3 * ci:3 * ci + 3], stats)
+        if why is None:
             continue
-        if a[0] == "exc" and b[0] == "exc":
-            stats["both_throw"] = stats.get("both_throw", 0) + 1
-            if a[1] != b[1]:
-                ctx.violation(c, "the call throws %s on the original and %s on the %s input" % (a[1], b[1], c["tr"]["kind"]))
-            continue
-        if a[0] != b[0]:
-            ctx.violation(c, "the call %s on the original input but %s on its %s image" % (
-                "throws " + a[1] if a[0] == "exc" else "succeeds", "throws " + b[1] if b[0] == "exc" else "succeeds",
-                c["tr"]["kind"]))
-            continue
-        Y, Yp = a[1], b[1]
-        N = c["N"]
-        if len(Y) != N or len(Yp) != N or len(Y[0]) != len(Yp[0]):
-            ctx.violation(c, "shape of the embedding depends on the transformation")
-            continue
-        Dm, Dp = dist_matrix(Y), dist_matrix(Yp)
-        k = c["tr"]["kind"]
-        if k in ("perm", "combo"):
-            ql = c["tr"]["ql"]
-            Dexp = [[Dm[ql[i]][ql[j]] for j in range(N)] for i in range(N)]
-        elif k == "scale":
-            Dexp = [[abs(c["tr"]["c"]) * v for v in row] for row in Dm]
-        else:
-            Dexp = Dm
-        err = dist_err(Dexp, Dp)
-        if err is None:
-            stats["degenerate"] = stats.get("degenerate", 0) + 1
-            continue
-        tol = meta_tol(c)
-        stats["max_err"] = max(stats.get("max_err", 0.0), err if err < tol else 0.0)
-        if err <= tol:
-            stats["meta_ok"] = stats.get("meta_ok", 0) + 1
-            continue
-        # conditioning probe: is the embedding itself stable under noise of the size the transformation injects?
-        cond = None
-        if p[0] == "ok" and len(p[1]) == N:
-            cond = dist_err(Dm, dist_matrix(p[1]))
-        if cond is None or cond > tol / 20:
-            stats["ill_conditioned_skipped"] = stats.get("ill_conditioned_skipped", 0) + 1
-            continue
-        ctx.violation(c, "%s embedding is not %s under a %s of the input: embedding distance matrices differ by %.3g "
-                         "(relative to the largest distance; tolerance %.0e; the same input with relative noise %.0e "
-                         "moves them by only %.3g)" % (
-                             c["method"], "equivariant" if k in ("perm", "scale", "combo") else "invariant",
-                             {"perm": "permutation", "rot": "rotation/reflection", "trans": "translation",
-                              "scale": "scaling", "combo": "rigid motion followed by a permutation"}[k],
-                             err, tol, noise_level(c), cond))
         stats["meta_violations"] = stats.get("meta_violations", 0) + 1
+        rc = c
+        if shrunk < 2:
+            shrunk += 1
+            rc = shrink_meta(ctx, exe, c)
+            if rc is not c:
+                w2 = meta_verdict(rc, run_impl(ctx, exe, meta_cmds(rc), timeout=120, env={"OMP_NUM_THREADS": "1"}), {})
+                why = (w2 or why) + " [shrunk from N = %d to N = %d samples]" % (c["N"], rc["N"])
+        ctx.violation(rc, why)
     return evals
 
 
@@ -1106,13 +1151,12 @@ def check_inventory(ctx, tres):
 
 
 # --------------------------------------------------------------------------------------------- main
-# compile-time matters more than run time here (the data are tiny): the front end dominates, -O0 saves
-# a third; the thorough tier runs 10x more embeds and takes -O1
-ST_FLAGS = ["-O0", "-g0"]
+# (-O0 builds were tried: they save ~12 s of compile time and cost more than that at run time)
+ST_FLAGS = []
 
 
 def emb_flags(ctx):
-    return ["-O0" if ctx.quick else "-O1", "-UNDEBUG", "-D_GLIBCXX_ASSERTIONS"]
+    return ["-O1", "-UNDEBUG", "-D_GLIBCXX_ASSERTIONS"]
 
 
 def budgets(ctx, factor=1):
@@ -1187,16 +1231,31 @@ def run(ctx):
     ts_ = threading.Thread(target=build_stages)
     ts_.start()
     coq = ctx.coq()
+    t_coq = ctx.elapsed()
     mexe = ctx.extract()
+    t_extract = ctx.elapsed()
     ts_.join()
     tb.join()
+    t_cpp = ctx.elapsed()
     th.join()
+    phase_times = {"coq": round(t_coq, 1), "extract": round(t_extract - t_coq, 1),
+                   "wait_for_c++": round(t_cpp - t_extract, 1), "wait_for_translator": round(ctx.elapsed() - t_cpp, 1)}
     for k in ("emb_error", "st_error"):
         if k in builds:
             raise vlib.BuildError(builds[k])
     eexe = builds["emb"]
     exe = builds["st"]
     inv_ok = check_inventory(ctx, tres)
+    if not ctx.quick and "error" not in tres:
+        # the translator must see a seeded static / srand in a scratch copy of the headers
+        try:
+            import t_static
+            st = t_static.selftest(ctx.repo)
+        except Exception as ex:
+            st = "exception: %s" % ex
+        ctx.note("T-static self-test (scratch copy + function-local static + srand): %s" % ("ok" if st == 0 else st))
+        if st != 0:
+            ctx.unshown("T-static self-test failed: the translator does not see a seeded function-local static")
     t_build = ctx.elapsed()
 
     stats, hist = {}, {}
@@ -1211,6 +1270,7 @@ def run(ctx):
     n += eval_nbr(ctx, eexe, cnb + nbr, stats, hist)
     t_meta = ctx.elapsed()
     n += eval_history(ctx, eexe, chi + history, stats, hist)
+    stats["build_phases"] = phase_times
     stats["seconds"] = {"build+proofs+translator": round(t_build, 1), "exact": round(t_exact - t_build, 1),
                         "meta": round(t_meta - t_exact, 1), "history": round(ctx.elapsed() - t_meta, 1)}
     searched = False
